@@ -198,6 +198,10 @@ def front_end_must_raise(X, mn, mx):
         d = cs[:, j:] - cs[:, :l - j]
         if not (d > 0).any() or not (d <= 0).any():
             return True
+        if d[d <= 0].min() == 0:
+            # every non-positive window sum is exactly 0 (grid / integer tracks): xmin = 0 and
+            # the bin index 999 * 0 / 0 raises (numba) or is NaN (numpy)
+            return True
     return False
 
 
@@ -385,7 +389,11 @@ def run_rec(inp):
     try:
         Xj = Xnp.copy()
         out['jit'] = _rows(list(seqlet._recursive_seqlets(Xj, *args)))
-        out['unchanged'] = out['unchanged'] and Xj.tobytes() == Xnp.tobytes()
+        if Xj.tobytes() != Xnp.tobytes():
+            # the kernel wrote into its argument: not what the property speaks about (that is the
+            # public caller's tensor, observed above) but no longer the modelled kernel -> tie
+            out['jit'] = None
+            out['jit_exc'] = 'kernel modified its input array'
     except Exception as e:
         out['jit_exc'] = repr(e)[:200]
     return out
@@ -677,10 +685,12 @@ def gen_rec(rng, big, plain=False):
             elif form < 0.30:
                 inp['layout'] = rng.choice(['f', 'cols', 'rows', 'cols'])
             ptypes = rng.random()
-            if ptypes < 0.15:
+            if ptypes < 0.16:
                 inp['ptypes'] = 'np64'
-            elif ptypes < 0.22 and inp['dtype'] == 'f64' and 'layout' not in inp:
+            elif ptypes < 0.26 and inp['dtype'] == 'f64' and 'layout' not in inp:
                 inp['ptypes'] = 'np32'
+            if 'ptypes' in inp and inp['flanks'] == 0:
+                inp['flanks'] = rng.randint(1, 5)
             if rng.random() < 0.15:
                 inp['keywords'] = True
         if _rec_ok(inp):
@@ -808,7 +818,7 @@ def gen_tf_sequence(rng):
 
 def generate(tier, rng):
     quick = tier != 'thorough'
-    n_rec, n_big, n_tf, n_def, n_seq = (70, 5, 40, 3, 7) if quick else (300, 25, 180, 15, 40)
+    n_rec, n_big, n_tf, n_def, n_seq = (70, 5, 40, 3, 9) if quick else (300, 25, 180, 15, 40)
     for inp in gen_rec_boundary(rng):
         yield inp
     for inp in gen_tf_boundary(rng):
@@ -828,6 +838,13 @@ def generate(tier, rng):
 
 
 def shrink(inp):
+    for c in _shrink(inp):
+        # never shrink towards a track on which the statistical front end must raise
+        if c['kind'] != 'rec' or 'X' in c or _rec_ok(c):
+            yield c
+
+
+def _shrink(inp):
     if _TIMEOUTS[0] > 3:        # a looping implementation: do not spend the run on shrinking
         return
     # fewer things first: no earlier calls, plain call form
